@@ -178,6 +178,10 @@ pub fn gen_c20(sink: &mut Sink, thorough: bool, seed: u64) {
     let parts = [
         "0", "1", "10", "007", "4294967295", "4294967296", "42949672950", "99999999999999999999", "+1", "+", "-", "-1", "-0", "+0", "++1", "",
         " 1", "1 ", "1a", "a", "abc", "1_0", "0x1", "١", "1e3", "4294967295x", "99999999999x", "+4294967295", "+4294967296",
+        // zero-padded and long numerals: a u32 may be written with any number of leading zeros
+        "00000000001", "000000000012", "004294967295", "0004294967295", "000000000004294967295", "000000000004294967296",
+        "00000000000x", "000000000000", "+000000000012", "+00000000001", "0000000000000000000000000000000000000001",
+        "00000000000000000000000000000000004294967296", "0000000000 1", "00000000000-",
     ];
     let mut texts: BTreeSet<String> = BTreeSet::new();
     for a in parts {
@@ -415,6 +419,15 @@ pub fn eval_serde_range(req: &str, a_s: &str) -> Case {
         }
         Err(e) => fail = Some(format!("Range JSON does not deserialize: {}", e)),
     }
+    // the same through the JSON value tree (a deserializer that announces sequence lengths)
+    match serde_json::to_value(&a).and_then(serde_json::from_value::<Range<u32>>) {
+        Ok(b) => {
+            if b != a || segs_of(&b) != segs_of(&a) {
+                fail = Some(format!("Range round trip through serde_json::Value changed the value to {}", fmt_range(&b)));
+            }
+        }
+        Err(e) => fail = Some(format!("Range does not round-trip through serde_json::Value: {}", e)),
+    }
     Case { req: req.to_string(), imp: format!("J={}|RT={}", text, back.map(|b| fmt_range(&b)).unwrap_or("error".into())), nontrivial: !segs_of(&a).is_empty(), oracle_fail: fail, tags: vec!["serde_range"] }
 }
 
@@ -433,6 +446,14 @@ pub fn eval_serde_legacy(req: &str, json: &str, ron_text: &str, pairs: &str) -> 
         });
     }
     let mut fail = None;
+    // also through the value tree
+    if let Ok(v) = serde_json::from_str::<serde_json::Value>(json) {
+        match serde_json::from_value::<Range<u32>>(v) {
+            Ok(r) if segs_of(&r) == want => {}
+            Ok(r) => fail = Some(format!("legacy JSON decoded through serde_json::Value gives {}", fmt_range(&r))),
+            Err(e) => fail = Some(format!("legacy JSON does not decode through serde_json::Value: {}", e)),
+        }
+    }
     let j = match &from_json {
         Ok(r) => {
             if segs_of(r) != want {
@@ -515,6 +536,15 @@ pub fn eval_serde_provider(req: &str, ops_s: &str, root: &str, rv: u32) -> Case 
                 fail = Some(format!("resolving against the deserialized provider differs: {} vs {}", r1, r2));
             }
             same = r1 == r2;
+            // the same through the JSON value tree
+            match serde_json::to_value(&prov).and_then(serde_json::from_value::<OfflineDependencyProvider<String, VS>>) {
+                Err(e) => fail = Some(format!("provider does not round-trip through serde_json::Value: {}", e)),
+                Ok(b2) => {
+                    if dump(&prov) != dump(&b2) {
+                        fail = Some("provider round trip through serde_json::Value changed packages / versions / dependencies".to_string());
+                    }
+                }
+            }
         }
     }
     Case { req: req.to_string(), imp: format!("J={}|SAME={}", canon_json(&text), bit(same)), nontrivial: ops.len() >= 2, oracle_fail: fail, tags: vec!["serde_provider"] }
